@@ -76,6 +76,71 @@ def main():
                 fail("value round trip", {"value": v.hex(), "written": _format_string(v).hex(), "read": _parse_string(_format_string(v)).hex()})
         except Exception as e:  # noqa: BLE001
             fail("value round trip raised", {"value": v.hex(), "exc": repr(e)})
+    # (a2) line continuation: a physical line continues iff it ends in an ODD number of backslashes before its LF / CRLF (git: a
+    #      backslash escapes the next character, so pairs are literal backslashes) - against the definition, exhaustively
+    from dulwich.config import _is_line_continuation
+    for ln in range(0, 7):
+        for t in itertools.product(b"a\\\"\n\r", repeat=ln):
+            v = bytes(t)
+            cases += 1
+            body = v[:-2] if v.endswith(b"\r\n") else (v[:-1] if v.endswith(b"\n") else None)
+            want = body is not None and (len(body) - len(body.rstrip(b"\\"))) % 2 == 1
+            if bool(_is_line_continuation(v)) != want:
+                fail("_is_line_continuation != 'odd number of trailing backslashes before the line end'", {"line": v.hex(), "got": bool(_is_line_continuation(v))})
+    # literal files in git's syntax: k = x + n backslashes + newline + y
+    for nbs in range(1, 7):
+        for quoted in (False, True):
+            for eol in (b"\n", b"\r\n"):
+                cases += 1
+                q = b'"' if quoted else b""
+                text = b"[s]\n\tk = " + q + b"x" + b"\\" * nbs + eol + b"y" + q + eol
+                want_lit = b"x" + b"\\" * (nbs // 2)
+                try:
+                    cf = ConfigFile.from_file(BytesIO(text))
+                    got = cf.get((b"s",), b"k")
+                    if nbs % 2 == 1 and got != want_lit + b"y":
+                        fail("a line ending in an odd number of backslashes is not continued as git does", {"backslashes": nbs, "quoted": quoted, "crlf": eol != b"\n", "got": got.hex(), "want": (want_lit + b"y").hex()})
+                    if nbs % 2 == 0 and not quoted and got != want_lit:
+                        fail("a line ending in an even number of backslashes is read wrongly", {"backslashes": nbs, "crlf": eol != b"\n", "got": got.hex(), "want": want_lit.hex()})
+                except Exception as e:  # noqa: BLE001
+                    if nbs % 2 == 1 or not quoted:
+                        fail("literal file with trailing backslashes raised", {"backslashes": nbs, "quoted": quoted, "crlf": eol != b"\n", "exc": repr(e)[:150]})
+    # (b0) multi-valued keys: all sequences of <= 4 operations against an ordered list model, observed through items(),
+    #      get_multivar() and a write -> read round trip
+    mops = [("add", b"k", b"1"), ("add", b"k", b"2"), ("add", b"x", b"0"), ("set", b"k", b"3"), ("del", b"k"), ("del", b"x"), ("add", b"K", b"4")]
+    for ln in range(1, 5):
+        for seq in itertools.product(range(len(mops)), repeat=ln):
+            cases += 1
+            c = ConfigFile()
+            model = []
+            try:
+                for oi in seq:
+                    op = mops[oi]
+                    key = op[1].lower()
+                    if op[0] == "add":
+                        c.add((b"s",), op[1], op[2])
+                        model.append((key, op[2]))
+                    elif op[0] == "set":
+                        c.set((b"s",), op[1], op[2])
+                        model = [kv for kv in model if kv[0] != key] + [(key, op[2])]
+                    else:
+                        if any(kv[0] == key for kv in model):
+                            c.remove((b"s",), op[1]) if hasattr(c, "remove") else c.__delitem__(((b"s",), op[1]))
+                        model = [kv for kv in model if kv[0] != key]
+                f = BytesIO()
+                c.write_to_file(f)
+                c2 = ConfigFile.from_file(BytesIO(f.getvalue()))
+                for view, cc in (("live", c), ("after write -> read", c2)):
+                    for key in (b"k", b"x"):
+                        want = [v for k_, v in model if k_ == key]
+                        try:
+                            got = list(cc.get_multivar((b"s",), key))
+                        except KeyError:
+                            got = []
+                        if got != want:
+                            fail("multi-valued key deviates from the ordered-list model", {"ops": [[x.decode() if isinstance(x, bytes) else x for x in mops[o]] for o in seq], "view": view, "key": key.decode(), "got": [g.decode() for g in got], "want": [w.decode() for w in want]})
+            except Exception as e:  # noqa: BLE001
+                fail("multi-valued key sequence raised", {"ops": [[x.decode() if isinstance(x, bytes) else x for x in mops[o]] for o in seq], "exc": repr(e)[:200]})
     subs = [None, b"", b"sub", b"s p", b'q"q', b"b\\s", b"a.b", b"CaSe", b'x"#y', b"a;b", b"a#b", b'"', b"]"]
     vals = [b"", b"v", b" lead", b"trail ", b'q"', b"a\\b", b"x#y", b"x;y", b"l1\nl2", b"t\tt", b"cr\r", b"\rcr"]
     for sub in subs:
@@ -135,7 +200,7 @@ def main():
                         fail("dulwich and git read different values from a git-written file", {"value": v.hex(), "dulwich": got.hex(), "git": ref.hex()})
                     os.remove(p)
     print(json.dumps({"name": "c20_roundtrip", "function": "dulwich/config.py _format_string/_parse_string + ConfigFile", "cases": cases, "exhaustive": True,
-                      "bound": f"all values <= {n} over the {len(alpha)}-symbol alphabet {alpha!r}; 7 subsection spellings x value pairs (multi-valued, ordered)"
+                      "bound": f"all values <= {n} over the {len(alpha)}-symbol alphabet {alpha!r}; 7 subsection spellings x value pairs (multi-valued, ordered); _is_line_continuation on all lines <= 6 over 5 symbols; literal files with 1..6 trailing backslashes; all sequences <= 4 of 7 add / set / remove operations on multi-valued keys vs an ordered-list model"
                       + ("; git config cross-check both directions" if tier == "thorough" else ""), "failures": failures, "assumption_failures": assumption_failures, "secs": round(time.time() - t0, 2)}))
 
 
